@@ -645,6 +645,8 @@ pub fn key_matches(key: &str, sys: Sys, category: &str, an: &Analysis) -> bool {
         }
     }
     match race {
+        // pattern key of a listed root cause: any racing pairs, as long as the run is pre-empted at the listed site(s)
+        "race=*" => sites.is_some() && an.midop_preemptions > 0,
         "sequential" => an.preemptions == 0,
         "whole-ops" => an.preemptions > 0 && an.midop_preemptions == 0,
         "race=none" => an.midop_preemptions > 0 && an.pairs.is_empty(),
